@@ -180,6 +180,14 @@ def _simple(case: Dict[str, Any]) -> Dict[str, Any]:
         finally:
             pass
         return {"violations": [exception_violation(e, ident + "|construct")], "outcome": "raises"}
+    from unit_scaling.parameter import has_parameter_data
+
+    for pname, prm in m.named_parameters():
+        want_tag = {"weight": "norm" if cls in ("LayerNorm", "RMSNorm") else ("output" if cls == "LinearReadout" else "weight"),
+                    "bias": "bias"}.get(pname)
+        if not has_parameter_data(prm) or (want_tag and prm.mup_type != want_tag):
+            viol.append({"key": ident + f"|parameter_tag|{pname}",
+                         "msg": f"options={o}: {pname} has mup_type={getattr(prm, 'mup_type', None)!r}, expected {want_tag!r}"})
     if twin is not None:
         # trainability of every parameter as in the torch.nn twin built with the same options
         tp, mp = dict(twin.named_parameters()), dict(m.named_parameters())
